@@ -194,7 +194,14 @@ pub fn tokenize(s: &str) -> Result<Tokens, LexError> {
                 }
                 let text = &s[ds..j];
                 // magnitude as i128 bounded by length
-                let mag: i128 = if text.len() > 30 { i128::MAX } else { text.parse::<i128>().unwrap_or(i128::MAX) };
+                let sig = text.trim_start_matches('0');
+                let mag: i128 = if sig.is_empty() {
+                    0
+                } else if sig.len() > 30 {
+                    i128::MAX
+                } else {
+                    sig.parse::<i128>().unwrap_or(i128::MAX)
+                };
                 let val = if c == '-' { -mag } else { mag };
                 if val < i32::MIN as i128 || val > i32::MAX as i128 {
                     return Err(lexerr(start, "number does not fit a signed 32-bit integer"));
